@@ -23,6 +23,10 @@ def run(ctx):
     calls, bad = T.replay(ctx, PART, rows, ctx.seed, every=(1 if thorough else 2))
     rows3 = T.table3(ctx, G=1, slacks=((0, 0, 0),))
     c3, bad3 = T.replay3(ctx, PART, rows3, ctx.seed, every=1)
+    T.bind_refeval3(ctx, PART, rows3)
+    c3d, bad3d = T.eval3d(ctx, PART, ctx.seed, 40000 if thorough else 8000)      # general 3-D cones: soundness against the evaluator
+    c3 += c3d
+    bad3 += bad3d
     T.report(ctx, bad + bad3, "C11")
     ctx.traces = len(rows) + len(rows3)
     ctx.evaluations = calls + c3
